@@ -45,6 +45,21 @@ CLAIMS = {
              note=POOLNOTE + "end() raising is outside the property.",
              tech="Coq proof: per-worker lifecycle invariant (log shape, quota arithmetic) over all events incl. faults, exit-join invariant; trace-acceptance correspondence with fault injection",
              ref="DESIGN.md §4 C01-C04"),
+ "C14": dict(text="Coq theorems over an LTS of any number of processes running arbitrary programs of write / read / len / is_contiguous / iterate "
+             "on one TextFileStorage, for EVERY interleaving of their accesses to the shared index, counters, lock and files: every completed "
+             "read raised IndexError or returned exactly the text stored under that id (a reader that has looked an entry up finds the complete "
+             "line at the recorded offset, and no later append changes it); one text per id for ever; a duplicate write raises ValueError and "
+             "changes nothing; whenever no operation is inside its critical section len() is the number of stored ids, waiting_for is the "
+             "smallest id not stored, is_contiguous() is true exactly when the stored ids are 0..len-1 (pigeonhole argument), iteration "
+             "yields the stored texts in id order skipping gaps; flush resets. Tied to /repo by trace acceptance under the controlled "
+             "scheduler with real files (file flush and readline are scheduling points), writers with gaps / reversed order / pre-sized "
+             "index / duplicates, concurrent readers, and a final quiescent parent.",
+             note=("Modelled, not verified: manager list / Value / RLock operations as atomic steps; files as byte lists with text-mode offsets = UTF-8 "
+                   "byte offsets; processes as threads holding a copy of the storage object (what fork gives). Texts are single-line (no \\n, no \\r). "
+                   "flush() only with the storage closed everywhere (as documented). Termination of the operations is not claimed by a theorem "
+                   "(the harness detects deadlocks structurally). "),
+             tech="Coq proof: three inductive invariants over an LTS with a lock (program/lock discipline; index-texts-files with a pending-write clause; counters with a pigeonhole loop-exit argument); trace-acceptance correspondence under a controlled scheduler",
+             ref="DESIGN.md §4 C14"),
  "C15": dict(text="Coq theorems over all feeds/permutations/drain points (Buffer, PrintBuffer) and all capacities and put/clear "
              "sequences (CircularBuffer) about an executable model; the model is tied to /repo on every run by differential "
              "execution (exhaustive small scope + random) of the extracted model and the real classes.",
